@@ -1,5 +1,6 @@
 import DadiVerif.Lemmas.Likelihood
 import DadiVerif.Lemmas.LikResid
+import DadiVerif.Lemmas.LikFoldReal
 import Mathlib.Analysis.SpecialFunctions.Gamma.Basic
 /-!
 # C11 — likelihoods are Poisson/multinomial over jointly unmasked entries, optimal theta
@@ -15,7 +16,7 @@ Vocabulary (Lemmas/Likelihood.lean): `effModel M D` = the model, folded if the d
 `−m + d·log m − lgam (d+1)`; `sumM`, `sumD` = Σ model, Σ data over such a list.
 -/
 namespace DadiVerif
-open Lik Gen.Lik
+open Lik Gen.Lik Finset
 
 /-! ## the Poisson log-likelihood -/
 
@@ -212,6 +213,340 @@ theorem C11_resid_anscombe (mk : Option ℝ) (M D : MSpec ℝ) :
         · exact absurd hp (not_lt.mpr h.le)
         · nlinarith
       · intro h; exact Or.inr ⟨by nlinarith, hp⟩
+
+/-! ## Round 4: the fold behind the auto-fold is the fold model of C09; values and totals under folding
+
+Vocabulary (Lemmas/LikFold.lean, LikFoldReal.lean): `toC09 M` = the C09 spectrum (`Fold.Spec`) with the values and masks of a
+rational spectrum `M`; `ofC09` back; `castSpec` = a rational spectrum seen in the `ℝ` instance of the model (every float is
+rational); `valAt cs k`, `maskAt cs k` = value / mask of flat entry `k`; `Fold.mirrorFlat N k = N-1-k`. -/
+
+/-- The fold the likelihood model executes (`Lik.foldSpec`, hand-written, any scalar type) is, on rational spectra with as many
+    finite cells as the shape says, the spectrum C09's model of `Spectrum.fold` constructs (`Fold.foldOut`, whose pointwise
+    programs are regenerated from the source): every value (masked entries too), every mask, the folded flag.  C09's
+    `Fold.foldSpec` returns it for an unfolded model, and the `ℝ` instance is its image under `ℚ → ℝ`. -/
+theorem C11_fold_is_C09 (M : MSpec ℚ) (hlen : M.cells.length = prodL M.shape) (hbad : ∀ c ∈ M.cells, c.bad = false) :
+    foldSpec M = ofC09 (Fold.foldOut (toC09 M))
+    ∧ (M.folded = false → Fold.foldSpec (toC09 M) = .ok (Fold.foldOut (toC09 M)) ∧ foldViaC09 M = some (foldSpec M))
+    ∧ foldSpec (castSpec M) = castSpec (foldSpec M) := by
+  refine ⟨foldSpec_eq_C09 M hlen hbad, fun hM => ⟨?_, foldViaC09_eq M hM hlen hbad⟩, foldSpec_cast M⟩
+  rw [Fold.foldSpec_eq]
+  have : (toC09 M).folded = false := hM
+  simp [this]
+
+example : ∃ M : MSpec ℚ, M.cells.length = prodL M.shape ∧ (∀ c ∈ M.cells, c.bad = false) ∧ M.folded = false ∧
+    (foldSpec M).cells = [⟨16, true, false⟩, ⟨6, false, false⟩, ⟨3, false, false⟩, ⟨0, true, false⟩, ⟨0, true, false⟩] :=
+  ⟨⟨[5], [⟨7, true, false⟩, ⟨1, false, false⟩, ⟨3, false, false⟩, ⟨5, false, false⟩, ⟨9, true, false⟩], false⟩,
+    by decide, by decide, rfl, by
+      simp [foldSpec, foldCells, foldCell, foldedOut, ambiguous, Lik.totalFlat, Lik.totalSamples, unflat, prodL, List.range, List.range.loop]
+      norm_num⟩
+
+/-- **auto-fold, by value.**  Folded data `D`, unfolded well-formed model `M` (rational-valued), `F` = what C09's
+    `Spectrum.fold` returns for `M`.  Then every entry point gives on `M` what it gives on `F` — `ll`, `ll_per_bin`,
+    `ll_multinom`, `optimal_sfs_scaling` and both residuals, whole results (value, mask, finiteness) — and `F` is: value
+    0 / half the pair sum / the pair sum on folded-out / ambiguous / kept entries, mask = own ∨ mirror ∨ folded-out ∨ corner. -/
+theorem C11_autofold_value (log lgam sqrt : ℝ → ℝ) (pw : Int → Nat → ℝ → ℝ) (mk : Option ℝ) (M D : MSpec ℚ)
+    (hD : D.folded = true) (hM : M.folded = false)
+    (hlen : M.cells.length = prodL M.shape) (hbad : ∀ c ∈ M.cells, c.bad = false)
+    (F : Fold.Spec) (hF : Fold.foldSpec (toC09 M) = .ok F) :
+    (ll log lgam (castSpec M) (castSpec D) = ll log lgam (castSpec (ofC09 F)) (castSpec D)
+     ∧ llPerBin log lgam (castSpec M) (castSpec D) = llPerBin log lgam (castSpec (ofC09 F)) (castSpec D)
+     ∧ llMultinom log lgam (castSpec M) (castSpec D) = llMultinom log lgam (castSpec (ofC09 F)) (castSpec D)
+     ∧ optimalScaling (castSpec M) (castSpec D) = optimalScaling (castSpec (ofC09 F)) (castSpec D)
+     ∧ linResid sqrt mk (castSpec M) (castSpec D) = linResid sqrt mk (castSpec (ofC09 F)) (castSpec D)
+     ∧ anscombe pw mk (castSpec M) (castSpec D) = anscombe pw mk (castSpec (ofC09 F)) (castSpec D))
+    ∧ ∀ k < prodL M.shape,
+        F.x k = (if 2 * Fold.totalFlat M.shape k > Fold.totalSamples M.shape then 0
+                 else if 2 * Fold.totalFlat M.shape k = Fold.totalSamples M.shape
+                   then (valAt M.cells k + valAt M.cells (Fold.mirrorFlat (prodL M.shape) k)) / 2
+                 else valAt M.cells k + valAt M.cells (Fold.mirrorFlat (prodL M.shape) k))
+        ∧ F.m k = (maskAt M.cells k || maskAt M.cells (Fold.mirrorFlat (prodL M.shape) k)
+                    || decide (2 * Fold.totalFlat M.shape k > Fold.totalSamples M.shape)
+                    || Gen.Fold.cornerFlat (prodL M.shape) k) := by
+  obtain ⟨e1, e2⟩ := effModel_cast_fold M D hD hM hlen hbad F hF
+  refine ⟨⟨?_, ?_, ?_, ?_, ?_, ?_⟩, ?_⟩
+  · rw [ll, ll, llPerBin_eq, llPerBin_eq, e1, e2]
+  · rw [llPerBin_eq, llPerBin_eq, e1, e2]
+  · rw [llMultinom, llMultinom, llMultinomPerBin_eq, llMultinomPerBin_eq, e1, e2]
+  · rw [optimalScaling_eq, optimalScaling_eq, e1, e2]
+  · rw [linResid_eq, linResid_eq, e1, e2]
+  · rw [anscombe_eq, anscombe_eq, e1, e2]
+  · intro k hk
+    have hf : (toC09 M).folded = false := hM
+    rw [Fold.foldSpec_eq, hf] at hF
+    simp only [Bool.false_eq_true, if_false, Fold.Res.ok.injEq] at hF
+    subst hF
+    have hkN : k < (toC09 M).N := hk
+    rw [Fold.foldOut_x (toC09 M) hkN, Fold.foldOut_m (toC09 M) hkN]
+    simp only [Fold.sfold, Fold.fo, toC09_x, toC09_m, toC09_N, toC09_shape]
+    refine ⟨?_, ?_⟩ <;> trivial
+
+/-- the same for the executable instance (`ℚ`, `log`/`gammaln`/`sqrt`/powers arbitrary functions = the driver's tables) -/
+theorem C11_autofold_value_rat (log lgam sqrt : ℚ → ℚ) (pw : Int → Nat → ℚ → ℚ) (mk : Option ℚ) (M D : MSpec ℚ)
+    (hD : D.folded = true) (hM : M.folded = false)
+    (hlen : M.cells.length = prodL M.shape) (hbad : ∀ c ∈ M.cells, c.bad = false)
+    (F : Fold.Spec) (hF : Fold.foldSpec (toC09 M) = .ok F) :
+    ll log lgam M D = ll log lgam (ofC09 F) D
+    ∧ llMultinom log lgam M D = llMultinom log lgam (ofC09 F) D
+    ∧ optimalScaling M D = optimalScaling (ofC09 F) D
+    ∧ linResid sqrt mk M D = linResid sqrt mk (ofC09 F) D
+    ∧ anscombe pw mk M D = anscombe pw mk (ofC09 F) D := by
+  obtain ⟨a1, a2⟩ := autofold_rat M D hD hM hlen hbad F hF
+  refine ⟨?_, ?_, ?_, ?_, ?_⟩
+  · simp only [ll, llPerBin, flag_ll_per_bin, a1, a2]
+  · simp only [llMultinom, llMultinomPerBin_rat log lgam M D hD hM hlen hbad F hF rfl rfl]
+  · simp only [optimalScaling, flag_optimal_sfs_scaling, a1, a2]
+  · simp only [linResid, flag_linear, a1, a2]
+  · simp only [anscombe, flag_anscombe, a1, a2]
+
+/-- non-vacuity of the hypotheses of `C11_autofold_value(_rat)`: folded data, unfolded model, 2×3 (T = 3, odd) -/
+example : ∃ (M D : MSpec ℚ) (F : Fold.Spec), D.folded = true ∧ M.folded = false ∧ M.cells.length = prodL M.shape ∧
+    (∀ c ∈ M.cells, c.bad = false) ∧ Fold.foldSpec (toC09 M) = .ok F :=
+  ⟨⟨[2, 3], [⟨1, true, false⟩, ⟨2, false, false⟩, ⟨3, false, false⟩, ⟨4, false, false⟩, ⟨5, true, false⟩, ⟨6, true, false⟩], false⟩,
+   ⟨[2, 3], [⟨0, true, false⟩, ⟨7, false, false⟩, ⟨1, false, false⟩, ⟨0, true, false⟩, ⟨0, true, false⟩, ⟨0, true, false⟩], true⟩,
+   _, rfl, rfl, by decide, by decide, (C11_fold_is_C09 _ (by decide) (by decide)).2.1 rfl |>.1⟩
+
+/-- **model total under folding, folded data with any mask.**  The total of the folded model over the entries visible in both
+    it and the folded data `D` (the denominator of `optimal_sfs_scaling`) is the total of the unfolded model over the entries
+    that are visible together with their mirror image, are no corner, and whose image under folding (`foldImage`: the entry
+    itself, or its mirror if it is folded out) is visible in `D`.  Side condition: `D`'s mask does not tell apart the two
+    members of an ambiguous pair (`2·tot = T`; true of every mask `Spectrum.fold` produces). -/
+theorem C11_fold_joint_total (M D : MSpec ℚ) (hD : D.folded = true) (hM : M.folded = false)
+    (hlenM : M.cells.length = prodL M.shape) (hlenD : D.cells.length = M.cells.length)
+    (hbad : ∀ c ∈ M.cells, c.bad = false)
+    (hamb : ∀ k < M.cells.length, 2 * Fold.totalFlat M.shape k = Fold.totalSamples M.shape →
+      maskAt D.cells (Fold.mirrorFlat M.cells.length k) = maskAt D.cells k) :
+    sumM (joint (effModel (castSpec M) (castSpec D)).cells (castSpec D).cells)
+      = ((∑ k ∈ range M.cells.length,
+            (if !(maskAt M.cells k || maskAt M.cells (Fold.mirrorFlat M.cells.length k)
+                  || Gen.Fold.cornerFlat M.cells.length k
+                  || maskAt D.cells (foldImage M.shape M.cells.length k)) then valAt M.cells k else 0) : ℚ) : ℝ) := by
+  have e : effModel (castSpec M) (castSpec D) = castSpec (foldSpec M) := by
+    rw [effModel_cast]; simp [hD, hM]
+  rw [e]
+  exact fold_joint_total_general M D hlenM hlenD hbad hamb
+
+/-- **folding conserves the totals over the jointly unmasked entries, hence the optimal scaling, when the joint mask is
+    mirror-symmetric and contains the corners**: for unfolded model and data (rational-valued, same shape),
+    Σ model and Σ data over the entries visible in both `model.fold()` and `data.fold()` equal Σ model and Σ data over the
+    entries visible in both unfolded spectra, and `optimal_sfs_scaling(model, data.fold())` (which folds the model)
+    equals `optimal_sfs_scaling(model, data)`.  FULL STRENGTH (uses `intersectMaskCorners = false`, see `C11_theta`). -/
+theorem C11_fold_theta_consistent (Mu Du : MSpec ℚ) (hM : Mu.folded = false) (hD : Du.folded = false) (wf : WF2 Mu Du)
+    (hs : JointSym Mu Du) (hc : JointCorners Mu Du) :
+    sumM (joint (effModel (castSpec Mu) (castSpec (foldSpec Du))).cells (castSpec (foldSpec Du)).cells)
+        = sumM (joint (castSpec Mu).cells (castSpec Du).cells)
+    ∧ sumD (joint (effModel (castSpec Mu) (castSpec (foldSpec Du))).cells (castSpec (foldSpec Du)).cells)
+        = sumD (joint (castSpec Mu).cells (castSpec Du).cells)
+    ∧ (optimalScaling (castSpec Mu) (castSpec (foldSpec Du))).val = (optimalScaling (castSpec Mu) (castSpec Du)).val := by
+  have e : effModel (castSpec Mu) (castSpec (foldSpec Du)) = castSpec (foldSpec Mu) := by
+    rw [effModel_cast]; simp [foldSpec, hM]
+  obtain ⟨s1, s2⟩ := joint_fold_sums Mu Du wf hs hc
+  rw [e]
+  exact ⟨s1, s2, theta_fold_consistent Mu Du hM hD wf hs hc (Or.inl rfl) (Or.inl rfl)⟩
+
+/-- non-vacuity: default corner masks plus a symmetric pair (1, 4) masked in the data only -/
+example : ∃ Mu Du : MSpec ℚ, Mu.folded = false ∧ Du.folded = false ∧ WF2 Mu Du ∧ JointSym Mu Du ∧ JointCorners Mu Du :=
+  ⟨⟨[6], [⟨9, true, false⟩, ⟨1, false, false⟩, ⟨1, false, false⟩, ⟨1, false, false⟩, ⟨1, false, false⟩, ⟨9, true, false⟩], false⟩,
+   ⟨[6], [⟨0, true, false⟩, ⟨3, true, false⟩, ⟨1, false, false⟩, ⟨1, false, false⟩, ⟨1, true, false⟩, ⟨0, true, false⟩], false⟩,
+   rfl, rfl, ⟨rfl, by decide, by decide, by decide, by decide⟩, by unfold JointSym; decide, by unfold JointCorners; decide⟩
+
+/-- …and it fails without the symmetry: corners masked, entry 4 masked in the data but its mirror 1 not.  Unfolded, the
+    scaling is (3+1+1)/(1+1+1) = 5/3; against the folded data the pair (1,4) is lost on both sides and it is (1+1)/(1+1) = 1. -/
+theorem C11_fold_theta_asymmetric :
+    let Mu : MSpec ℚ := ⟨[6], [⟨9, true, false⟩, ⟨1, false, false⟩, ⟨1, false, false⟩, ⟨1, false, false⟩, ⟨1, false, false⟩, ⟨9, true, false⟩], false⟩
+    let Du : MSpec ℚ := ⟨[6], [⟨0, true, false⟩, ⟨3, false, false⟩, ⟨1, false, false⟩, ⟨1, false, false⟩, ⟨1, true, false⟩, ⟨0, true, false⟩], false⟩
+    WF2 Mu Du ∧ JointCorners Mu Du ∧ ¬ JointSym Mu Du
+    ∧ (optimalScaling (castSpec Mu) (castSpec Du)).val = 5 / 3
+    ∧ (optimalScaling (castSpec Mu) (castSpec (foldSpec Du))).val = 1 := by
+  intro Mu Du
+  have hFD : (foldSpec Du).cells = [⟨0, true, false⟩, ⟨4, true, false⟩, ⟨2, false, false⟩, ⟨0, true, false⟩, ⟨0, true, false⟩, ⟨0, true, false⟩] := by
+    simp [Du, foldSpec, foldCells, foldCell, foldedOut, ambiguous, Lik.totalFlat, Lik.totalSamples, unflat, prodL, List.range, List.range.loop]
+    norm_num
+  have hFM : (foldSpec Mu).cells = [⟨18, true, false⟩, ⟨2, false, false⟩, ⟨2, false, false⟩, ⟨0, true, false⟩, ⟨0, true, false⟩, ⟨0, true, false⟩] := by
+    simp [Mu, foldSpec, foldCells, foldCell, foldedOut, ambiguous, Lik.totalFlat, Lik.totalSamples, unflat, prodL, List.range, List.range.loop]
+    norm_num
+  refine ⟨⟨rfl, by decide, by decide, by decide, by decide⟩, by unfold JointCorners; decide, by unfold JointSym; decide, ?_, ?_⟩
+  · rw [optimalScaling_eq, theta_val _ _ (Or.inl rfl)]
+    have e : effModel (castSpec Mu) (castSpec Du) = castSpec Mu := by rw [effModel_cast]; rfl
+    rw [e]
+    norm_num [Mu, Du, castSpec, castCell, joint, sumD, sumM]
+  · rw [optimalScaling_eq, theta_val _ _ (Or.inl rfl)]
+    have e : effModel (castSpec Mu) (castSpec (foldSpec Du)) = castSpec (foldSpec Mu) := by
+      rw [effModel_cast]; rfl
+    rw [e]
+    simp only [castSpec_cells, hFD, hFM]
+    norm_num [castCell, joint, sumD, sumM]
+
+/-! ## Round 4: the closed form of `ll_multinom` -/
+
+/-- `ll_multinom = ll(model, data) + Σdata·log θ̂ − (θ̂ − 1)·Σmodel`, θ̂ = Σdata/Σmodel, **all three sums over the entries
+    masked in neither spectrum** (model folded first if the data are) — for a model positive there and Σdata > 0 (so that
+    θ̂ > 0 and `log(θ̂·m) = log θ̂ + log m`).  This is the identity a per-bin-free implementation may use; `ll_multinom` itself
+    is the per-bin sum `ll(θ̂·model)` (`C11_multinom_is_ll_at_theta`).  FULL STRENGTH, see `C11_theta`. -/
+theorem C11_multinom_closed_form (lgam : ℝ → ℝ) (M D : MSpec ℝ)
+    (hm : ∀ p ∈ joint (effModel M D).cells D.cells, 0 < p.1)
+    (hD : 0 < sumD (joint (effModel M D).cells D.cells)) :
+    (llMultinom Real.log lgam M D).val
+      = (ll Real.log lgam M D).val
+        + sumD (joint (effModel M D).cells D.cells) * Real.log (optimalScaling M D).val
+        - ((optimalScaling M D).val - 1) * sumM (joint (effModel M D).cells D.cells) := by
+  rw [C11_theta]
+  exact llMultinom_closed_aux lgam M D (Or.inl rfl) hm hD
+
+/-- the closed form evaluated with each spectrum's OWN mask (`data.sum()`, `model.sum()` of the two masked arrays: Σ over
+    the entries visible in the data, resp. in the model) equals `ll_multinom` when the two index sets coincide with the joint
+    one — the masks of (folded) model and data are equal; on every tree. -/
+theorem C11_multinom_closed_form_own_masks (lgam : ℝ → ℝ) (M D : MSpec ℝ)
+    (he : (effModel M D).cells.map Cell.mask = D.cells.map Cell.mask)
+    (hm : ∀ p ∈ joint (effModel M D).cells D.cells, 0 < p.1)
+    (hD : 0 < sumD (joint (effModel M D).cells D.cells)) :
+    closedFormOwn lgam M D = (llMultinom Real.log lgam M D).val :=
+  closedFormOwn_eq_of_masks_eq lgam M D he hm hD
+
+/-- …and differs from it otherwise: model (·, 1, 1, ·), data (·, 2, [5 masked], ·).  Jointly visible: one entry,
+    θ̂ = 2; own sums: Σdata = 2 but Σmodel = 2 instead of 1, so the own-mask closed form is `ll_multinom − 1`. -/
+theorem C11_multinom_closed_form_counterexample (lgam : ℝ → ℝ) :
+    let M : MSpec ℝ := ⟨[4], [⟨9, true, false⟩, ⟨1, false, false⟩, ⟨1, false, false⟩, ⟨9, true, false⟩], false⟩
+    let D : MSpec ℝ := ⟨[4], [⟨0, true, false⟩, ⟨2, false, false⟩, ⟨5, true, false⟩, ⟨0, true, false⟩], false⟩
+    (effModel M D).cells.map Cell.mask ≠ D.cells.map Cell.mask
+    ∧ closedFormOwn lgam M D = (llMultinom Real.log lgam M D).val - 1 := by
+  intro M D
+  have hE : effModel M D = M := by simp [effModel, M, D]
+  have hj : joint (effModel M D).cells D.cells = [(1, 2)] := by simp [hE, M, D, joint]
+  have hc : CornerOK (effModel M D).cells D.cells :=
+    Or.inr (Or.inr (by simp [hE, M, D, jointMask, maskCorners, List.range, List.range.loop]))
+  refine ⟨by simp [hE, M, D], ?_⟩
+  rw [llMultinom_closed_aux lgam M D hc (by rw [hj]; simp) (by rw [hj]; norm_num [sumD])]
+  unfold closedFormOwn
+  rw [optimalScaling_eq, theta_val _ _ hc, hj, hE]
+  norm_num [sumD, sumM, maSum, M, D, List.filter_cons]
+  ring
+
+example : ∃ (M D : MSpec ℝ), (effModel M D).cells.map Cell.mask = D.cells.map Cell.mask ∧
+    (∀ p ∈ joint (effModel M D).cells D.cells, 0 < p.1) ∧ 0 < sumD (joint (effModel M D).cells D.cells) := by
+  refine ⟨⟨[3], [⟨9, true, false⟩, ⟨3, false, false⟩, ⟨9, true, false⟩], false⟩,
+          ⟨[3], [⟨0, true, false⟩, ⟨4, false, false⟩, ⟨0, true, false⟩], false⟩, ?_, ?_, ?_⟩ <;>
+    simp [effModel, joint, sumD]
+
+/-! ## Round 4: non-integer data, and entries with model = 0 -/
+
+/-- the summand is the Poisson log-probability continued to real `d` through the Gamma function (projected data are not
+    integers): for mean `m > 0` and `d > −1`, `−m + d·log m − log Γ(d+1) = log (e^{−m} m^d / Γ(d+1))`; the statement also
+    covers the one case the code can meet with `m = 0` without the value being −∞, `m = 0 ∧ d = 0` (probability 1, log 0…
+    never evaluated: `0·log 0 = 0`).  `d = 0, m > 0` gives `−m`. -/
+theorem C11_poisson_logpmf_real (m d : ℝ) (hd : -1 < d) (hm : 0 < m ∨ (m = 0 ∧ d = 0)) :
+    pterm Real.log (fun x => Real.log (Real.Gamma x)) (m, d)
+      = Real.log (Real.exp (-m) * m ^ d / Real.Gamma (d + 1)) := by
+  rcases hm with hm | ⟨rfl, rfl⟩
+  · have hG : 0 < Real.Gamma (d + 1) := Real.Gamma_pos_of_pos (by linarith)
+    have hp : 0 < m ^ d := Real.rpow_pos_of_pos hm d
+    simp only [pterm]
+    rw [Real.log_div (by positivity) hG.ne', Real.log_mul (Real.exp_pos _).ne' hp.ne', Real.log_exp, Real.log_rpow hm]
+  · simp [pterm]
+
+example : pterm Real.log (fun x => Real.log (Real.Gamma x)) (3, 0) = -3 := by simp [pterm]
+
+/-- `ll` as the code evaluates it when the model has exact zeros: an entry with `model = 0` is dropped by `numpy.ma.log`;
+    if its data value is 0 too that is the correct contribution (log-probability 0, `lgam 1 = 0`), so with every jointly
+    unmasked entry either `model > 0` or `model = data = 0` the sum still runs over exactly the jointly unmasked entries.
+    (`model = 0 < data` has probability 0 and is dropped all the same: `C11_nonpos_partial`.) -/
+theorem C11_ll_joint_zero (lgam : ℝ → ℝ) (hg : lgam 1 = 0) (M D : MSpec ℝ)
+    (hm : ∀ p ∈ joint (effModel M D).cells D.cells, 0 < p.1 ∨ (p.1 = 0 ∧ p.2 = 0)) :
+    (ll Real.log lgam M D).val = ((joint (effModel M D).cells D.cells).map (pterm Real.log lgam)).sum := by
+  rw [C11_ll_def]
+  apply sum_filter_of_zero
+  intro p hp hq
+  rcases hm p hp with h | ⟨h1, h2⟩
+  · simp [h] at hq
+  · simp [pterm, h1, h2, hg]
+
+example : ∃ (M D : MSpec ℝ), (∀ p ∈ joint (effModel M D).cells D.cells, 0 < p.1 ∨ (p.1 = 0 ∧ p.2 = 0)) ∧
+    ∃ p ∈ joint (effModel M D).cells D.cells, p.1 = 0 := by
+  refine ⟨⟨[3], [⟨2, false, false⟩, ⟨0, false, false⟩, ⟨9, true, false⟩], false⟩,
+          ⟨[3], [⟨1, false, false⟩, ⟨0, false, false⟩, ⟨0, true, false⟩], false⟩, ?_, ?_⟩ <;>
+    simp [effModel, joint]
+
+/-! ## Round 4: residuals — domain, sign on every visible entry, the `mask` level, zeros -/
+
+/-- linear residual, the domain made explicit: the entry is non-finite (division by `√model = 0`) exactly for `model ≤ 0`
+    (finite inputs), so every finite entry — in particular every visible finite entry, for every `mask` level — has
+    `model > 0` and there: residual > 0 ⇔ model > data, < 0 ⇔ model < data, = 0 ⇔ model = data. -/
+theorem C11_resid_linear_sign (mk : Option ℝ) (m d : Cell ℝ) :
+    (linResidCell Real.sqrt mk m d).bad = (m.bad || d.bad || decide (m.val ≤ 0))
+    ∧ ((linResidCell Real.sqrt mk m d).bad = false →
+        0 < m.val ∧ (0 < (linResidCell Real.sqrt mk m d).val ↔ d.val < m.val)
+        ∧ ((linResidCell Real.sqrt mk m d).val < 0 ↔ m.val < d.val)
+        ∧ ((linResidCell Real.sqrt mk m d).val = 0 ↔ m.val = d.val)) := by
+  refine ⟨linResid_bad mk m d, fun hb => ?_⟩
+  have hm := linResid_visible_pos mk m d hb
+  have hs : 0 < Real.sqrt m.val := Real.sqrt_pos.mpr hm
+  obtain ⟨_, _, h3⟩ := (C11_resid_linear mk ⟨[], [], false⟩ ⟨[], [], false⟩).2 m d
+  refine ⟨hm, (h3 hm).1, (h3 hm).2, ?_⟩
+  rw [linResid_val, div_eq_zero_iff]
+  constructor
+  · rintro (h | h)
+    · linarith
+    · exact absurd h hs.ne'
+  · intro h; left; linarith
+
+/-- Anscombe residual (real powers), the domain made explicit: every visible entry, with or without a `mask` level, has
+    `model > 0` and `data > 0`, is finite when the inputs are, and there the residual is > 0 ⇔ model > data (the documented
+    sign: positive when the model is high, opposite to Pierce–Schafer), < 0 ⇔ model < data, = 0 ⇔ model = data. -/
+theorem C11_resid_anscombe_sign (mk : Option ℝ) (m d : Cell ℝ) (hv : (anscombeCell rpw mk m d).mask = false) :
+    0 < m.val ∧ 0 < d.val ∧ (anscombeCell rpw mk m d).bad = (m.bad || d.bad)
+    ∧ (0 < (anscombeCell rpw mk m d).val ↔ d.val < m.val)
+    ∧ ((anscombeCell rpw mk m d).val < 0 ↔ m.val < d.val)
+    ∧ ((anscombeCell rpw mk m d).val = 0 ↔ m.val = d.val) := by
+  obtain ⟨hm, hd⟩ := anscombe_visible_pos rpw mk m d hv
+  obtain ⟨_, _, h3⟩ := (C11_resid_anscombe mk ⟨[], [], false⟩ ⟨[], [], false⟩).2 m d
+  obtain ⟨s1, s2⟩ := h3 hm hd
+  refine ⟨hm, hd, anscombe_bad_of_pos mk m d hm, s1, s2, ?_⟩
+  constructor
+  · intro h0
+    by_contra hne
+    rcases lt_or_gt_of_ne hne with h | h
+    · have := s2.mpr h; linarith
+    · have := s1.mpr h; linarith
+  · intro h
+    rcases lt_trichotomy (anscombeCell rpw mk m d).val 0 with hlt | h0 | hgt
+    · have := s2.mp hlt; linarith
+    · exact h0
+    · have := s1.mp hgt; linarith
+
+example : ∃ m d : Cell ℝ, (anscombeCell rpw (some 1) m d).mask = false :=
+  ⟨⟨2, false, false⟩, ⟨3, false, false⟩, by rw [anscombe_mask]; norm_num [levelMask]⟩
+
+/-- zeros: an entry whose data value is exactly 0 (empty bin), or whose model value is 0, is masked in the Anscombe residual
+    for every `mask` argument, `None` included — because both `x^(−1/3)` terms go through `numpy.ma.power`, whose domain check
+    masks `x = 0` for a negative exponent (generated table `anscombePowers` read from the source; `**` would not mask). -/
+theorem C11_resid_anscombe_zero :
+    anscombeZeroMasked "data" = true ∧ anscombeZeroMasked "model" = true
+    ∧ ∀ (pw : Int → Nat → ℝ → ℝ) (mk : Option ℝ) (m d : Cell ℝ), (d.val = 0 ∨ m.val = 0) →
+        (anscombeCell pw mk m d).mask = true :=
+  ⟨by decide, by decide, fun pw mk m d h => anscombe_zero_masked pw mk m d h⟩
+
+/-- the `mask` argument (a level `k`): it hides exactly the entries with `model ≤ k ∧ data ≤ k` on top of the level-free
+    mask, in both residuals.  Relation to the docstring ("the level in model below which the returned residual array is
+    masked"): every entry the level hides has `model ≤ k` — but not every entry with `model ≤ k` is hidden: one with
+    `data > k` stays visible (witness: model 1, data 5, level 2, both residuals). -/
+theorem C11_resid_level (k : ℝ) (m d : Cell ℝ) :
+    ((linResidCell Real.sqrt (some k) m d).mask
+        = ((linResidCell Real.sqrt none m d).mask || (decide (m.val ≤ k) && decide (d.val ≤ k))))
+    ∧ ((anscombeCell rpw (some k) m d).mask
+        = ((anscombeCell rpw none m d).mask || (decide (m.val ≤ k) && decide (d.val ≤ k))))
+    ∧ ((linResidCell Real.sqrt (some k) m d).mask = true → (linResidCell Real.sqrt none m d).mask = false → m.val ≤ k)
+    ∧ (linResidCell Real.sqrt (some 2) ⟨1, false, false⟩ ⟨5, false, false⟩).mask = false
+    ∧ (anscombeCell rpw (some 2) ⟨1, false, false⟩ ⟨5, false, false⟩).mask = false := by
+  refine ⟨?_, ?_, ?_, ?_, ?_⟩
+  · rw [linResid_mask, linResid_mask]; simp [levelMask]
+  · rw [anscombe_mask, anscombe_mask]; simp [levelMask]
+  · intro h1 h0
+    rw [linResid_mask] at h1 h0
+    simp only [levelMask, Bool.or_false] at h0
+    rw [h0] at h1
+    simp only [Bool.false_or] at h1
+    exact (levelMask_le k m.val d.val h1).1
+  · rw [linResid_mask]; norm_num [levelMask]
+  · rw [anscombe_mask]; norm_num [levelMask]
 
 /-! ## non-vacuity -/
 
